@@ -18,7 +18,7 @@ MODULE = "Sqfs.Props.C18"
 REQUIRED = ["Sqfs.C18.canon_eq_spec", "Sqfs.C18.canon_fails_iff_dotdot", "Sqfs.C18.canon_same_entry_and_clean",
             "Sqfs.C18.canon_length_le", "Sqfs.C18.canon_idempotent", "Sqfs.C18.sane_iff",
             "Sqfs.C18.norm_dst_le_src", "Sqfs.C18.canon_dst_le_src",
-            "Sqfs.C18.canon_inplace_memory", "Sqfs.C18.canon_inplace_eq_model"]
+            "Sqfs.C18.canon_inplace_memory", "Sqfs.C18.norm_inplace_memory", "Sqfs.C18.canon_inplace_eq_model"]
 ALPHA = [0x2f, 0x2e, 0x61, 0xc3]
 TRUSTED = ["C strings are modelled as their bytes before the NUL; the in-place rewriting is modelled twice: functionally (read original / emit output) and as C statements over one byte array (Model/C18InPlace.lean); canon_inplace_memory proves the two equal, and the whole array after the call is compared with the real code on every run",
            "modelled: lib/util/src/canonicalize_name.c, lib/util/src/filename_sane.c (POSIX branch); the call sites that funnel names through them are enumerated from the clang AST and probed behaviourally, not proved",
@@ -66,7 +66,7 @@ def clause_failures(s, res, res2):
 
 # bytes placed behind the string's terminator for the `canonmem` op (whole array compared with the in-place model)
 TAILS = [b"", b"\xa5", b"/..", b"\x00./", b"a/\x00b", b"\xff" * 8]
-K = 3        # script lines per input: canon, sane, canonmem
+K = 4        # script lines per input: canon, sane, canonmem, norm
 
 
 def memory_clause_failures(s, tail, res, line):
@@ -84,6 +84,21 @@ def memory_clause_failures(s, tail, res, line):
         bad.append("memory:result-and-terminator")
     if mem[len(s) + 1:] != tail:
         bad.append("memory:bytes-behind-terminator")
+    return bad
+
+
+def norm_clause_failures(s, tail, line):
+    """normalize_slashes alone: no leading, trailing or repeated slash, every other byte kept in order; bytes behind
+    the old terminator untouched"""
+    if not line.startswith("ok "):
+        return ["norm:protocol"]
+    mem = untok(line[3:])
+    want = b"/".join(c for c in s.split(b"/") if c)
+    bad = []
+    if len(mem) != len(s) + 1 + len(tail) or mem[len(s) + 1:] != tail:
+        bad.append("norm:bytes-behind-terminator")
+    if mem[:len(want)] != want or mem[len(want):len(want) + 1] != b"\0":
+        bad.append("norm:result")
     return bad
 
 
@@ -146,7 +161,7 @@ def run_pair(ctx, harness, lines):
 def unit_correspondence(ctx):
     """canonicalize_name.c / filename_sane.c of the working tree against the Lean model, and the property's clauses
     evaluated on the implementation's own answers.  Returns a dict for the evidence."""
-    harness = ctx.cc("h_c18", ["h_c18.c", "lib/util/src/canonicalize_name.c", "lib/util/src/filename_sane.c"])
+    harness = ctx.cc("h_c18", ["h_c18.c", "lib/util/src/filename_sane.c"])
     inputs, ncorpus, nexh, nrand = gen_inputs(ctx)
     if nexh < 4 ** 8 or nrand <= 0:
         raise vlib.CheckFailure("C18: generator produced %d exhaustive and %d random inputs" % (nexh, nrand))
@@ -155,6 +170,7 @@ def unit_correspondence(ctx):
         lines.append("canon " + tok(s))
         lines.append("sane " + tok(s))
         lines.append("canonmem %s %s" % (tok(s), tok(TAILS[i % len(TAILS)])))
+        lines.append("norm %s %s" % (tok(s), tok(TAILS[(i + 1) % len(TAILS)])))
     impl, model, crash = run_pair(ctx, harness, lines)
     if crash:
         k, rc, err = crash
@@ -190,6 +206,7 @@ def unit_correspondence(ctx):
         if sane_impl not in ("0", "1") or (sane_impl == "1") != sane_spec(s):
             bad.append("sane-iff")
         bad += memory_clause_failures(s, TAILS[i % len(TAILS)], res, impl[K * i + 2])
+        bad += norm_clause_failures(s, TAILS[(i + 1) % len(TAILS)], impl[K * i + 3])
         diff = any(impl[K * i + j] != model[K * i + j] for j in range(K))
         if res is None or res != s:
             nontrivial.add(s)
@@ -303,7 +320,7 @@ def replay(ctx, path):
         for e in evs:
             print("%s %s input=%r expected=%r observed=%r ok=%s" % (e.probe, e.kind, e.inp, e.expected, e.observed, e.ok))
         return 1 if bad or not evs else 0
-    harness = ctx.cc("h_c18", ["h_c18.c", "lib/util/src/canonicalize_name.c", "lib/util/src/filename_sane.c"])
+    harness = ctx.cc("h_c18", ["h_c18.c", "lib/util/src/filename_sane.c"])
     lines = ["canon " + rp["input_hex"], "sane " + rp["input_hex"]] + ["canonmem %s %s" % (rp["input_hex"], tok(t)) for t in TAILS]
     impl, model, crash = run_pair(ctx, harness, lines)
     print("input :", untok(rp["input_hex"]))
